@@ -34,6 +34,11 @@ def generate(seed, tier):
         if i % 5 == 4:
             k = rng.randint(1, 9)
             names = [rng.choice(['n0', 'n1', 'n2', 'nodeA', 'n10']) for _ in range(k)]
+            rb = derived_rng(seed, 'C14s', i)
+            if rb.random() < 0.4:       # more ranks than any small-input shortcut of a sorting routine covers
+                k = rb.randint(17, 64)
+                pool = rb.sample(['n0', 'n1', 'n2', 'nodeA', 'n10', 'n11', 'x'], rb.randint(2, 5))
+                names = [rb.choice(pool) for _ in range(k)]
             cases.append({'kind': 'socket', 'names': names})
             continue
         n = rng.randint(1, 14)
